@@ -32,6 +32,7 @@ def noop_guards(ctx, p, fn):
         ctx.fail("C14-R1", fn, "effects", "no effect found at all (the postfilter does nothing?)", b.loc())
         return
     bad = 0
+    over = []
     for bb, span, what in effects:
         gs = paths.guards(b, bb, eb)
         g_beta = g_len = False
@@ -52,11 +53,21 @@ def noop_guards(ctx, p, fn):
                         k = r[1] + off
                         if (c[1] == "Gt" and pos and k >= 2) or (c[1] == "Ge" and pos and k >= 3) or (c[1] == "Le" and not pos and k >= 2) or (c[1] == "Lt" and not pos and k >= 3):
                             g_len = True
+                            # ... and not more than that: three coefficients (c0, c1, c2) are already
+                            # postfiltered, so the threshold is exactly len > 2
+                            exact = (c[1] in ("Gt", "Le") and k == 2) or (c[1] in ("Ge", "Lt") and k == 3)
+                            if not exact:
+                                over.append((span, what, show(c)))
         if not (g_beta and g_len):
             bad += 1
             ctx.fail("C14-R1", fn, what, "`%s` is not under both `beta > 0` and `len > 2`: beta = 0 (or order 2) would change the coefficients" % what, cm.loc_of(span))
     if not bad:
         ctx.ok("C14-R1", "%s: all %d effects on self are under beta > 0 and len > 2 (no-op otherwise)" % (fn.split("::")[-1], len(effects)), b.loc())
+    if over:
+        span, what, cond = over[0]
+        ctx.fail("C14-R1", fn, "length threshold", "the postfilter is skipped for more than the two-coefficient case: `%s` (expected exactly len > 2); a three-coefficient spectrum with beta > 0 would be left unsharpened" % cond, cm.loc_of(span))
+    elif not bad:
+        ctx.ok("C14-R1", "%s: the length threshold is exactly len > 2" % fn.split("::")[-1], b.loc())
 
 
 def run(ctx):
